@@ -23,6 +23,7 @@ pub mod c15;
 pub mod c16;
 pub mod c17;
 pub mod c18;
+pub mod fuzz_oracles;
 pub mod legs;
 
 pub struct LangSet {
@@ -79,6 +80,7 @@ pub fn run(ctx: &Ctx) -> Outcome {
 pub fn replay(ctx: &Ctx, case: &J) -> Vec<String> {
     match case.str_of("kind").as_str() {
         "panic" => return replay_panic(case),
+        "fuzz" => return legs::judge_fuzz_bytes(&ctx.prop, &legs::unhex(&case.str_of("data_hex"))).into_iter().collect(),
         "runner-crash" => return vec!["runner-level crash record: re-run the check with the recorded seed".into()],
         _ => {}
     }
@@ -141,6 +143,7 @@ pub fn worker_main(args: &[String]) -> i32 {
         Some("c14-threads") => c14::worker_threads(&args[1..]),
         Some("c14-silence") => c14::worker_silence(&args[1..]),
         Some("c14-first") => c14::worker_first(&args[1..]),
+        Some("fuzz-seeds") => fuzz_oracles::worker_seeds(&args[1..]),
         _ => {
             eprintln!("unknown worker {:?}", args.first());
             2
